@@ -170,9 +170,11 @@ func runC06(e *Engine, g G, o RunOpt) RunInfo {
 			case 2:
 				pl, ns = "<query xmlns='"+nsDiscoItems+"' node='n'/>", nsDiscoItems
 			case 3:
-				pl = "<ping xmlns='urn:xmpp:ping'/>"
+				// (payloads the library has no type for are payloads all the same: the matcher is
+				// documented as matching the namespace of the IQ payload)
+				pl, ns = "<ping xmlns='urn:xmpp:ping'/>", "urn:xmpp:ping"
 			case 4:
-				pl = "<z xmlns='x:y'><w/></z>"
+				pl, ns = "<z xmlns='x:y'><w/></z>", "x:y"
 			}
 			if t == "error" {
 				pl += "<error type='cancel'><item-not-found xmlns='" + nsStanzas + "'/></error>"
